@@ -10,6 +10,7 @@ C12 driver. Input lines (one answer line each):
   idle <site> <cutoff> <len> <n>           → `<cutoff> <len> <n>`        (non-diagonal moves)
   sweep <cutoff> <before bits> <after bits>→ `<isSweepResult> <n after>`
   setcut <c> <cutoff> <occ bits>           → `<cutoff> <len> <n>`        (`set_cutoff` / `set_op_cutoff`, generator: c ≥ cutoff)
+  copy <how> <cutoff> <occ bits>           → `<cutoff> <len> <n>`        (`clone()`, serde round trip, `SerializeQmcGraph` + `into_qmc(rng)`)
   inccut <c> <cutoff> <occ bits>           → `<cutoff> <len> <n>`        (`Qmc::increase_cutoff_to`, any c)
   equalise <cutoffs> <lens>                → `<cutoffs'> <lens'>`        (tempering preamble)
   swap <site> <cutA> <occA> <cutB> <occB>  → `<cutA'> <lenA'> <nA'> <cutB'> <lenB'> <nB'>` (raw `swap_manager_and_state`)
@@ -32,6 +33,9 @@ def step (toks : List String) : String :=
   | ["sweep", c, before, after] =>
     let a := parseBits after
     s!"{showBool (isSweepResult (parseNat c) (parseBits before) a)} {countOcc a}"
+  | ["copy", _how, cut, occ] =>
+    let s := CSampler.copy { cutoff := parseNat cut, occ := parseBits occ }
+    s!"{s.cutoff} {s.len} {s.n}"
   | ["inccut", c, cut, occ] =>
     let s := CSampler.increaseCutoffTo (parseNat c) { cutoff := parseNat cut, occ := parseBits occ }
     s!"{s.cutoff} {s.len} {s.n}"
